@@ -31,8 +31,8 @@ from core import Exn, call, cstr
 from schema_gen import obj_to_coq
 
 CLAIM = {
-    "text": "Coq theorems (Props/C13.v) about a model of validate.valid_instance / validate_value_type / valid and the five verify() overrides over the regenerated schema tables, for EVERY schema, VALIDATOR key list, primitive-validator function and instance tree (unbounded depth, induction over the reachability relation / instance trees): if any sub-instance reachable through declared child members has a required attribute missing or empty, a child count outside its c_cardinality min/max, or an attribute / text value refused by the primitive validator its declared type name resolves to, by its enumeration, or by its list member type, then valid_instance(root) and root.verify() raise (C13_rejects, C13_rejects_actual, C13_rejects_decided); if every node satisfies its constraints with resolving types and the overrides' own conditions hold, both succeed (C13_accepts, C13_accepts_decided); the two sides are exclusive. Kernel-evaluated on today's tables for ALL rows, no exception list: every declared attribute type / value-type base / list member resolves - a name that is an XSD built-in type to the VALIDATOR key of that very type, any other name to string (C13_types_resolve, C13_value_types_resolve), valid() never raises KeyError for any type name (C13_valid_never_keyerror), every declared enumeration is decided by membership alone whatever its base (C13_enumerations_enforced), so no typed or enumerated attribute value escapes (C13_no_typed_value_escapes, C13_no_enumerated_value_escapes); the verify() overrides are the five modelled ones. Non-vacuity: a Response and an EntityDescriptor read back from real objects satisfy `good`, 13 single-constraint mutations of them 1-3 levels down have a reachable violation. The model follows validate.py WITH the repairs proposed_fix/C13-1..3; *_before_fix_refuted theorems keep the failures of the earlier code.",
-    "note": "Trusted: Coq kernel + vm_compute; translator; the model is hand-written and tested per constraint on every run (units prim, valid, vvt, valid_instance_spec, verify). In the theorems the primitive lexical validators are a function parameter; in the correspondence boolean, the string kinds, the 13 integer kinds (python int() grammar: blanks, sign, single underscores; ASCII digits only), NMTOKEN(S), language and valid_domain_name (regular expressions through a derivative matcher) are Gallina definitions compared with the real functions on edge values, while dateTime, duration, base64Binary, anyURI and IP address are a table of clear-cut samples whose verdicts are checked against the real functions. str.strip() / str.lower() are modelled for ASCII. ONLY TESTED, not proved: agreement of model and code; the constraints taken from the SAML 2.0 schemas (SPEC_ANCHORS); that the SP / IdP entry points run the validation on what they parse (23 violated messages through parse_authn_request_response / parse_authn_request). c_value_type maxlen is never enforced (outside the statement). Occurrence bounds are c_cardinality entries only; a single-valued child without an entry (Assertion.issuer, Response.status) is not checked. The committed check expects /repo + proposed_fix/C13-1.diff, C13-2.diff, C13-3.diff (on the unrepaired tree it reports the 177 former findings as violations).",
+    "text": "Coq theorems (Props/C13.v) about a model of validate.valid_instance / validate_value_type / valid and the five verify() overrides over the regenerated schema tables, for EVERY schema, VALIDATOR key list, primitive-validator function and instance tree (unbounded depth, induction over the reachability relation / instance trees): if any sub-instance reachable through declared child members has a required attribute missing or empty, a child count outside its c_cardinality min/max, or an attribute / text value refused by the primitive validator its declared type name resolves to, by its enumeration, or by its list member type, then valid_instance(root) and root.verify() raise (C13_rejects, C13_rejects_actual, C13_rejects_decided); if every node satisfies its constraints with resolving types and the overrides' own conditions hold, both succeed (C13_accepts, C13_accepts_decided); the two sides are exclusive. Kernel-evaluated on today's tables for ALL rows, no exception list: every declared attribute type / value-type base / list member resolves - a name that is an XSD built-in type to the VALIDATOR key of that very type, any other name to string (C13_types_resolve, C13_value_types_resolve), valid() never raises KeyError for any type name (C13_valid_never_keyerror), every declared enumeration is decided by membership alone whatever its base (C13_enumerations_enforced), so no typed or enumerated attribute value escapes (C13_no_typed_value_escapes, C13_no_enumerated_value_escapes); the verify() overrides are the five modelled ones. NO GENERAL ESCAPE HATCH (C13_no_escape_hatch, induction over the tree): for every schema, primitive validators, tree and ANY rewriting of the extension-attribute dictionaries (xsi:nil = true / 1 added, removed, everything replaced) at every node whose class does not run AttributeValueBase.verify(), valid_instance and verify return the very same verdict; the root's own extension attributes are never looked at. The Gallina lexical validators test the WHOLE value (C13_boolean_anchored: junk before / after an accepted boolean is refused; C13_integer_whole_value / C13_integer_junk_refused: an accepted integer is blanks, one optional sign and digits / single underscores, any other character at any place is refused; C13_nmtoken_whole_value). Non-vacuity: a Response and an EntityDescriptor read back from real objects satisfy `good`, 13 single-constraint mutations of them 1-3 levels down have a reachable violation. The model follows validate.py WITH the repairs proposed_fix/C13-1..3; *_before_fix_refuted theorems keep the failures of the earlier code.",
+    "note": "Trusted: Coq kernel + vm_compute; translator; the model is hand-written and tested per constraint on every run (units prim, valid, vvt, valid_instance_spec, verify). In the theorems the primitive lexical validators are a function parameter; in the correspondence boolean, the string kinds, the 13 integer kinds (python int() grammar: blanks, sign, single underscores; ASCII digits only), NMTOKEN(S), language and valid_domain_name (regular expressions through a derivative matcher) are Gallina definitions compared with the real functions on edge values, while dateTime, duration, base64Binary, anyURI and IP address are a table of clear-cut samples whose verdicts are checked against the real functions; the table (and the edge values of the Gallina validators) holds about 330 values that begin or end with a valid lexical form and carry junk, a second value or a line break (UNANCHORED; each asserted to lie outside an independent regular expression of the lexical space), dateTime also through time_util.str_to_time and its fallback regular expression; the same values are put into every typed attribute / typed text / enumeration (5 per place, rotating), and every class gets its violated text-less variants again with xsi:nil = true / 1 as an extension attribute, through valid_instance AND obj.verify(), at the root, nested, and below a parent that carries xsi:nil. KNOWN FINDING duration-trailing-junk-after-time-part: valid_duration accepts PT1Hjunk, PT1H2, PT1HPT1H (time_util.parse_duration does not compare its index with the length); the table follows the code for these 7 rows. str.strip() / str.lower() are modelled for ASCII. ONLY TESTED, not proved: agreement of model and code; the constraints taken from the SAML 2.0 schemas (SPEC_ANCHORS); that the SP / IdP entry points run the validation on what they parse (23 violated messages through parse_authn_request_response / parse_authn_request). c_value_type maxlen is never enforced (outside the statement). Occurrence bounds are c_cardinality entries only; a single-valued child without an entry (Assertion.issuer, Response.status) is not checked. The committed check expects /repo + proposed_fix/C13-1.diff, C13-2.diff, C13-3.diff (on the unrepaired tree it reports the 177 former findings as violations).",
     "technique": "machine-checked proof (Coq, induction over instance trees) + regenerated-table obligations over all rows + per-constraint model/implementation correspondence",
 }
 TRUSTED = [
@@ -91,6 +91,59 @@ SAMPLES = {
 }
 for _k, (_lo, _hi) in INT_RANGES.items():
     SAMPLES[_k] = _int_samples(_lo, _hi)
+
+
+# ---- both-ends anchoring: values that BEGIN or END with a valid lexical form of the type and carry junk before /
+# after it / a line break inside.  None of them is in the lexical space: every one must be refused as a whole.
+def _int_unanchored(n):
+    return [n + "abc", "abc" + n, n[:-1] + "\n" + n[-1:], n + " 43", n + "\nabc", n + " trailing words", "x " + n, n + ",43", n + ".", n[:-1] + " " + n[-1:],
+            n + "\n43", n + "\x00", "#" + n, n + "-", n + "+1"]
+
+
+UNANCHORED = {
+    "dateTime": ["2024-01-01T00:00:00Z trailing words", "2024-01-01T00:00:00Z2099-01-01T00:00:00Z", "2024-01-01T00:00:00+25:99", "2024-01-01T00:00:00Z+25:99",
+                 "2024-01-01T00:00:00.5Zjunk", "2024-01-01T00:00:00.12Z34", "2024-01-01T00:00:00Z\nx", "2024-01-01T00:00:00Z\n2099-01-01T00:00:00Z",
+                 "2024-01-01\nT00:00:00Z", "\n2024-01-01T00:00:00Z", " 2024-01-01T00:00:00Z", "x2024-01-01T00:00:00Z", "not before 2024-01-01T00:00:00Z",
+                 "2024-01-01T00:00:00 Z", "2024-01-01T00:00:00Zz", "2024-01-01T00:00:00ZZ", "2024-01-01T00:00:00.5.5Z", "12024-01-01T00:00:00Z",
+                 "2024-01-01T00:00:00Z\n\n", "2024-01-01T00:00:00\nZ", "2024-01-01T00:00:00Z\r\n", "2024-01-01T00:00:00Z;2099-01-01T00:00:00Z"],
+    "duration": [" PT1H", "xP1D", "junk PT1H", "\nPT1H", "P1Djunk", "P1D trailing words", "P1D\nP1D", "P1D P1D", "P1DP1D", "P1Dx", "P1Y junk", "P1YjunkT1H",
+                 "P1Y2M3Dx", "P1Y2M3D junk", "P1M\nP1D", "P1Y\nx", "PjunkT1H"],
+    "boolean": ["trueX", "true\n", "\ntrue", "Xtrue", "true false", "1\n", "0x", "truefalse", "true trailing words", "falsetrue", "1 ", "10", "true\ntrue",
+                "false\nx", "tr\nue", "x1", "1true", "true;false"],
+    "language": ["en\n", "en junk", "\nen", "en-US\nx", "en-US trailing words", "x en", "en\nen"],
+    "NMTOKEN": ["abc\n", "abc def", "\nabc", "abc\ndef", "abc trailing words"],
+    "token": ["a b\n", "\na b", "a\nb"],
+    "normalizedString": ["a b\n", "\na b", "a b\nx"],
+    "pv:ipaddress": ["1.2.3.4junk", "1.2.3.4\n", "x1.2.3.4", "1.2.3.4 ", "::1junk", "[::1]x", "1.2.3.4.5", "1.2.3.4/24", "::1\n", "1.2.3.4 trailing words",
+                     "1.2.3.4\n5.6.7.8", " 1.2.3.4", "1.2.3.4,5.6.7.8"],
+    "pv:domainname": ["idp.example.org\n", "idp.example.org junk", "\nidp.example.org", "idp.example.org:80x", "idp.example.org:80\n", "idp.example.org\nx",
+                      "idp.example.org trailing words", " idp.example.org", "idp.example.org:80 x"],
+}
+for _k, (_lo, _hi) in INT_RANGES.items():
+    UNANCHORED[_k] = _int_unanchored("-42" if _hi is not None and _hi < 42 else "42")
+# the same shape, but validate.valid_duration (time_util.parse_duration) ACCEPTS them today: parse_duration never looks at what
+# follows the last designator it understood once the time part has begun (known finding duration-trailing:*; the model's table
+# follows the code for these rows)
+UNANCHORED_DEFECT = {"duration": ["PT1Hjunk", "PT1H trailing words", "PT1H2", "PT1HPT1H", "PTjunk", "P1DT1Hx", "PT1H\nx"]}
+# an independent statement of each lexical space (whole value): what is NOT matched must be refused
+LEXICAL = {
+    "dateTime": r"\d{4}-\d\d?-\d\d?[Tt]\d\d?:\d\d?:\d\d?(\.\d*)?[Zz]?\n?",
+    "duration": r"-?P(?=[0-9T])(\d+Y)?(\d+M)?(\d+D)?(T(?=\d)(\d+H)?(\d+M)?(\d+([.,]\d*)?S)?)?[ \t\n\r]*",
+    "boolean": r"(?i:true|false|0|1)",
+    "language": r"[a-zA-Z]{1,8}(-[a-zA-Z0-9]{1,8})*",
+    "NMTOKEN": r"[^ \t\n\r]+",
+    "token": r"([^ \t\n\r]+( [^ \t\n\r]+)*)?",
+    "normalizedString": r"[^\t\n\r]*",
+    "pv:ipaddress": r"\d{1,3}(\.\d{1,3}){3}|\[?[0-9a-fA-F.]*:[0-9a-fA-F:.]*(%\w+)?\]?",
+    "pv:domainname": r"[a-zA-Z0-9]+([-.][a-zA-Z0-9]+)*(:[0-9]{1,5})?",
+}
+for _k in INT_RANGES:
+    LEXICAL[_k] = r"[ \t\n\r\x0b\x0c]*[+-]?[0-9]+(_[0-9]+)*[ \t\n\r\x0b\x0c]*"
+for _k, _vs in list(UNANCHORED.items()) + list(UNANCHORED_DEFECT.items()):
+    for _v in _vs:
+        assert not re.fullmatch(LEXICAL[_k], _v), (_k, _v)      # the table only holds values outside the lexical space
+for _k, _vs in UNANCHORED.items():
+    SAMPLES[_k] = (SAMPLES[_k][0], SAMPLES[_k][1] + [_v for _v in _vs if _v not in SAMPLES[_k][1]])
 # validators that are NOT defined in Gallina: the model looks their verdict up in the table
 TABLE_KEYS = ["dateTime", "duration", "base64Binary", "anyURI", "pv:ipaddress"]
 # probe values for validate.valid(typ, .): they tell all validators apart
@@ -134,6 +187,8 @@ def prim_table():
             rows[(k, v)] = True
         for v in bad:
             rows[(k, v)] = False
+        for v in UNANCHORED_DEFECT.get(k, []):
+            rows[(k, v)] = real_prim(k, v) is True        # model the code that exists; the oracle reports it (check_prims)
         if k in validate.VALIDATOR:
             for v in PROBES:
                 if (k, v) not in rows:
@@ -216,6 +271,42 @@ class Builder(object):
         g = SAMPLES["string"]
         return g[0], g[1], True
 
+    def unanchored_for_vtype(self, vt, text):
+        """values that begin / end with a valid value of the c_value_type and carry junk: all must be refused
+        (text is stripped before it is tested, an attribute value is not)"""
+        base, en, member, maxlen = vt
+        if maxlen is not None:
+            return []
+        if en is not None:
+            e0, e1 = en[0], en[-1]
+            vals = [e0 + " trailing words", "x" + e0, e0 + "\n" + e1, e0 + " " + e1, "junk " + e0, e0 + e1, e0 + "\nx"]
+            if not text:
+                vals += [e0 + "\n", "\n" + e0, " " + e0]
+            return [v for v in dict.fromkeys(vals) if v not in en and (not text or v.strip() not in en)]
+        if base in ("string", "list"):
+            return []
+        k = self.resolve(base)
+        vals = UNANCHORED.get(k, [])
+        if text:
+            vals = [v for v in vals if v.strip() and not re.fullmatch(LEXICAL[k], v.strip())]
+        return vals
+
+    def unanchored_for_attr(self, t):
+        if t[0] == "N":
+            return UNANCHORED.get(self.resolve(t[1]), [])
+        if t[0] == "C":
+            return self.unanchored_for_vtype(self.T.rows[t[1]]["vtype"] or ("string", None, None, None), False)
+        return []
+
+    @staticmethod
+    def rotate(vals, salt, n=5):
+        """n of the values, starting at a place that depends on the (class, member): deterministic, and over all
+        attributes of one type every value is used"""
+        if not vals:
+            return []
+        start = (salt * n) % len(vals)
+        return [vals[(start + i) % len(vals)] for i in range(min(n, len(vals)))]
+
     def minimal(self, cid, depth=6):
         T = self.T
         row, cls = T.rows[cid], T.classes[cid]
@@ -252,6 +343,10 @@ class Builder(object):
             o = cls()
             o.extension_attributes["{http://www.w3.org/2001/XMLSchema-instance}nil"] = "false"
             out.append(("av-nil-false", "-", None, o))
+            for nil in ("1", "TRUE", "true ", ""):
+                o = cls()
+                o.extension_attributes[XSI_NIL] = nil
+                out.append(("av-nil-%r" % nil, "-", None, o))
             o = cls()
             o.extension_attributes.clear()
             o.extension_attributes["other"] = "x"
@@ -277,6 +372,10 @@ class Builder(object):
                 o = self.minimal(cid)
                 setattr(o, name, v)
                 out.append(("attr-invalid", name, True if checked else None, o))
+            for v in self.rotate(self.unanchored_for_attr(t), cid + 3 * m):
+                o = self.minimal(cid)
+                setattr(o, name, v)
+                out.append(("attr-unanchored", name, True, o))
         if row["vtype"]:
             good, bad, checked = self.samples_for_vtype(row["vtype"])
             for v in good[:2]:
@@ -295,6 +394,10 @@ class Builder(object):
                 o = self.minimal(cid)
                 o.text = "\t" + bad[0] + " "
                 out.append(("text-invalid-padded", "text", True if checked else None, o))
+            for j, v in enumerate(self.rotate(self.unanchored_for_vtype(row["vtype"], True), cid)):
+                o = self.minimal(cid)
+                o.text = (v, " " + v + "\n")[j % 2]
+                out.append(("text-unanchored", "text", True, o))
         card = {m: (mn, mx) for (m, mn, mx) in row["card"]}
         for (_k, m, c, islist) in row["children"]:
             if c is None or m in row["missing"] or m not in card:
@@ -371,6 +474,22 @@ class Builder(object):
             o.address = "1.2.3.4"
             o.dns_name = "x y"
             out.append(("override-locality-both", "address", False, o))
+        return out + self.nil_variants(out)
+
+    def nil_variants(self, vs):
+        """NO GENERAL ESCAPE HATCH: xsi:nil is AttributeValueBase.verify()'s business only.  The first violated, text-less
+        variant of every kind again with xsi:nil="true" (some also "1") as an extension attribute: still violated;
+        and the minimal instance with it: still accepted"""
+        out, seen = [], {}
+        for kind, member, violated, o in vs:
+            if violated is not True or o.text or kind.startswith(("text", "override")):
+                continue
+            seen[kind] = seen.get(kind, 0) + 1
+            if seen[kind] > (2 if kind == "card-below-min" else 1):       # card-below-min: no child at all / too few of them
+                continue
+            for nil in ("true", "1") if kind in ("required-missing", "attr-invalid", "card-below-min", "card-above-max") else ("true",):
+                out.append(("nil:%s:%s" % (kind, nil), member, True, with_nil(o, nil)))
+        out.append(("nil:base:true", "-", False, with_nil(vs[0][3], "true")))
         return out
 
     def deep_violated(self, cid, per_class, depth=4, seen=()):
@@ -412,6 +531,18 @@ class Builder(object):
         else:
             setattr(p, T.names[m], o)
         return p
+
+
+XSI_NIL = "{http://www.w3.org/2001/XMLSchema-instance}nil"
+
+
+def with_nil(o, nil="true"):
+    """a copy of o that carries xsi:nil as an extension attribute and has no text"""
+    import copy
+    d = copy.deepcopy(o)
+    d.text = None
+    d.extension_attributes[XSI_NIL] = nil
+    return d
 
 
 def outcome(r):
@@ -509,6 +640,26 @@ def check_prims(ctx):
             elif got != exp:
                 ctx.oracle_fail("prim-sample:%s:%r" % (k, v), "validator %s %s the clear-cut %s sample %r" % (
                     k, "accepts" if got else "rejects", "valid" if exp else "invalid", v), {"unit": "prim", "key": k, "value": v})
+    for k, vs in UNANCHORED_DEFECT.items():
+        for v in vs:
+            ctx.count("prim-sample:" + k)
+            ctx.nontriv(("unanchored", k, v))
+            if real_prim(k, v) is not False:
+                ctx.oracle_fail("%s-trailing-junk-after-time-part" % k, "validator %s accepts %r: a valid %s followed by junk" % (k, v, k), {"unit": "prim", "key": k, "value": v})
+    for k, vs in UNANCHORED.items():
+        for v in vs:
+            ctx.nontriv(("unanchored", k, v))
+    # valid_date_time is time_util.str_to_time not raising; str_to_time falls back on a regular expression that must be anchored at both ends
+    from saml2_tophat import time_util
+    rx = getattr(time_util, "TIME_FORMAT_WITH_FRAGMENT", None)
+    for v, exp in [(x, True) for x in SAMPLES["dateTime"][0]] + [(x, False) for x in SAMPLES["dateTime"][1]]:
+        got = call(time_util.str_to_time, v)
+        ctx.count("str_to_time:%s" % ("raises" if isinstance(got, Exn) else "answers"))
+        if isinstance(got, Exn) == exp:
+            ctx.oracle_fail("str_to_time:%r" % v, "time_util.str_to_time(%r) %s" % (v, "raises %s" % got.name if exp else "answers although this is no dateTime"),
+                            {"unit": "str_to_time", "value": v})
+        if rx is not None and hasattr(rx, "match") and v in UNANCHORED["dateTime"] and rx.match(v):
+            ctx.oracle_fail("time-regex-unanchored:%r" % v, "time_util.TIME_FORMAT_WITH_FRAGMENT matches %r" % v, {"unit": "str_to_time", "value": v})
     ints, strs, langs, doms = _fmt_ints(ctx.rng), _fmt_strings(ctx.rng), _fmt_language(ctx.rng), _fmt_domain(ctx.rng)
     pools = {k: ints for k in INT_RANGES}
     for k in ("string", "anySimpleType", "normalizedString", "token", "NMTOKEN", "NMTOKENS"):
@@ -1028,9 +1179,18 @@ def run(ctx):
         cid_ = "%s:%s:%s:%d:%s" % (qn, kind, member, idx, nest)
         claim = 9 if violated is None else 1 if violated else 0
         vi_cases.append(dict(id=cid_, coq="(%s,(%d)%%Z)" % (coq, claim), impl=[obs(r), claim], show=show))
-        if T.rows[T.cid[type(o)]]["verify"] or nest == "root" and kind.startswith(("override", "av")):
+        if T.rows[T.cid[type(o)]]["verify"] or nest == "root" and kind.startswith(("override", "av")) or kind.startswith("nil") or nest.endswith("+nil"):
             r2 = outcome(call(o.verify))
             ver_cases.append(dict(id="verify:" + cid_, coq=coq, impl=obs(r2), show=show))
+            if violated is True and r2 is True:
+                ctx.oracle_fail("not-rejected:verify:%s:%s.%s" % (kind, qn, member),
+                                "%s: %s of %s.%s (%s) is accepted by obj.verify()" % (nest, kind, qn, member, T.qname[T.cid[type(o)]]),
+                                {"unit": "variant", "class": qn, "kind": kind, "member": member, "nest": nest, "idx": idx, "call": "verify",
+                                 "xml": schema_gen.describe(T, o, 1500)})
+            elif violated is False and kind.startswith("nil") and isinstance(r2, Exn):
+                ctx.oracle_fail("valid-rejected:verify:%s:%s.%s:%s" % (kind, qn, member, r2.name),
+                                "%s: %s of %s (%s) satisfies the declared constraints but obj.verify() raises %s" % (nest, kind, qn, T.qname[T.cid[type(o)]], r2.name),
+                                {"unit": "variant", "class": qn, "kind": kind, "member": member, "nest": nest, "idx": idx, "call": "verify"})
         if violated is not None:
             spec_cases.append(cid_)
         ctx.count("%s:%s" % (kind.split(":")[0] if not kind.startswith("override") else "override", r.name if isinstance(r, Exn) else "accepted"))
@@ -1050,10 +1210,19 @@ def run(ctx):
     for cid in range(len(T.classes)):
         vs = B.variants(cid)
         per_class[cid] = vs
+        first = set()
         for idx, (kind, member, violated, o) in enumerate(vs):
+            extra = kind.startswith("nil") or kind.endswith("unanchored")
+            if extra and ctx.quick:
+                # quick: per class the first junk-carrying value of every attribute, the first xsi:nil variant and the nil'd minimal
+                # instance always; of the others a random 40 % (all of them in the thorough tier)
+                fk = ("nil" if kind.startswith("nil") else kind, member)
+                if fk in first and kind != "nil:base:true" and ctx.rng.random() >= 0.4:
+                    continue
+                first.add(fk)
             add(o, cid, kind, member, violated, "root", idx)
             # the same with content validation does not look at: text of a class without value type, foreign attributes
-            if not T.rows[cid]["over"] and ctx.rng.random() < (0.35 if ctx.quick else 1.0):
+            if not T.rows[cid]["over"] and ctx.rng.random() < ((0.0 if extra else 0.35) if ctx.quick else 1.0):
                 add(decorate(T, o), cid, kind, member, violated, "root+decor", idx)
         if cid % 200 == 0:
             ctx.sample(dict(cls=T.qname[cid], variants=[(k, m) for k, m, _v, _o in vs][:12]))
@@ -1065,6 +1234,7 @@ def run(ctx):
             if d is not None:
                 per_class[cid] = per_class[cid] + [("deep:" + d[0], "-", True, d[1])]
                 add(d[1], cid, "deep:" + d[0], "-", True, "root", len(per_class[cid]) - 1)
+                add(with_nil(d[1], "true"), cid, "deep:" + d[0], "-", True, "root+nil", len(per_class[cid]) - 1)
                 ctx.count("deep-variant-classes")
     # nested under each possible parent
     for cid, plist in sorted(B.parents.items()):
@@ -1074,15 +1244,24 @@ def run(ctx):
             prow = T.rows[pid]
             if prow["over"] or m in prow["missing"]:
                 continue
+            una = [i for i in viol if vs[i][0].endswith("unanchored")]
+            nil = [i for i in viol if vs[i][0].startswith("nil")]
             if ctx.quick:
-                chosen = ([ctx.rng.choice(viol)] if viol else []) + [0]
+                chosen = ([ctx.rng.choice(viol)] if viol else []) + [0] + ([ctx.rng.choice(una)] if una else []) + ([ctx.rng.choice(nil)] if nil else [])
+                chosen = list(dict.fromkeys(chosen))
+                nilparent = set(chosen[:1]) if viol else set()
             else:
                 chosen = range(len(vs))
+                nilparent = set(viol)
             for idx in chosen:
                 kind, member, violated, o = vs[idx]
                 for pos in (("first", "middle", "last") if islist and violated else ("last",)):
                     p = B.nest(pid, m, islist, o, cid, pos)
                     add(p, cid, kind, member, violated, "under:%s.%s:%s" % (T.qname[pid], T.names[m], pos), idx)
+                if idx in nilparent and not kind.startswith("nil"):
+                    # the violation below a PARENT that carries xsi:nil: the recursion is not cut short either
+                    p = with_nil(B.nest(pid, m, islist, o, cid, "last"), ctx.rng.choice(["true", "true", "1"]) if ctx.quick else "true")
+                    add(p, cid, kind, member, violated, "under:%s.%s:last+nil" % (T.qname[pid], T.names[m]), idx)
     # random chains: a violated instance two levels below the root
     rows = [(pid, m, islist, cid) for cid, plist in sorted(B.parents.items()) for (pid, m, islist) in plist
             if not T.rows[pid]["over"] and m not in T.rows[pid]["missing"]]
@@ -1162,6 +1341,9 @@ def replay(ctx, payload):
     elif u == "locality":
         from saml2_tophat import saml
         print("SubjectLocality(dns_name=%r).verify() ->" % inp["dns_name"], outcome(call(saml.SubjectLocality(dns_name=inp["dns_name"]).verify)))
+    elif u == "str_to_time":
+        from saml2_tophat import time_util
+        print("time_util.str_to_time(%r) ->" % inp["value"], call(time_util.str_to_time, inp["value"]), "; valid_date_time ->", real_prim("dateTime", inp["value"]))
     elif u == "prim":
         print("validator %s on %r ->" % (inp["key"], inp["value"]), real_prim(inp["key"], inp["value"]))
     elif u == "valid":
@@ -1205,13 +1387,17 @@ def replay(ctx, payload):
             pid = T.qname.index(pq)
             m = T.intern[mname]
             islist = next(c[3] for c in T.rows[pid]["children"] if c[1] == m)
-            o = B.nest(pid, m, islist, o, below, pos)
+            o = B.nest(pid, m, islist, o, below, pos.split("+")[0])
+            if pos.endswith("+nil"):
+                o = with_nil(o, "true")
             below = pid
         if inp["nest"] == "root+decor":
             o = decorate(T, o)
+        if inp["nest"] == "root+nil":
+            o = with_nil(o, "true")
         print("variant:", inp["class"], kind, member, inp["nest"], "violated =", violated)
         print(schema_gen.describe(T, o, 3000))
-        print("valid_instance ->", outcome(call(valid_instance, o)))
+        print("valid_instance ->", outcome(call(valid_instance, o)), "; obj.verify() ->", outcome(call(o.verify)))
     else:
         print("no concrete input in this replay file (broken obligation / correspondence): see its fields")
     return 0
